@@ -954,11 +954,39 @@ def redirects(ck):
     old_b = [b for b, s in role.items() if s != nr + ".url" and s.endswith(".url")]
     ck.ob("C09.cross-origin-test", fin, strip_if.test, len(new_b) == 1 and len(old_b) == 1, "the cross-origin test compares the redirect target URL with the request's URL (parsed: %s)" % role)
     if len(new_b) == 1 and len(old_b) == 1:
+        # a parse of the raw Location header inside the condition (`urlsplit(location).scheme and ...`) is modelled:
+        # the target is written in every form that reaches it - absolute, scheme-relative (//host/..), path-only
+        import copy as _copy
+
+        class _Loc(ast.NodeTransformer):
+            hit = False
+
+            def visit_Call(self, node):
+                self.generic_visit(node)
+                if q.call_attr(node) in ("urlsplit", "urlparse") and node.args and any(isinstance(x, ast.Constant) and x.value == "Location" for x in ast.walk(node.args[0])):
+                    _Loc.hit = True
+                    return ast.copy_location(ast.Name(id="__loc", ctx=ast.Load()), node)
+                return node
+
+        test = ast.fix_missing_locations(_Loc().visit(_copy.deepcopy(test)))
+        uses_location = _Loc.hit
         missed = []
         n_eval = 0
         for o in _url_domain():
             for n_ in _url_domain():
+              forms = [("absolute", n_[0], True)]
+              if uses_location:
+                  if n_[0] == o[0]:
+                      forms.append(("scheme-relative", "", True))
+                  if n_ == o:
+                      forms.append(("path-only", "", False))
+              for form, loc_scheme, loc_has_netloc in forms:
                 env = {}
+                if uses_location:
+                    env["__loc.scheme"] = loc_scheme
+                    env["__loc.netloc"] = (n_[1] if n_[2] is None else "%s:%s" % (n_[1], n_[2])) if loc_has_netloc else ""
+                    env["__loc.hostname"] = n_[1] if loc_has_netloc else None
+                    env["__loc.port"] = n_[2] if loc_has_netloc else None
                 for b, (s, h, p) in ((old_b[0], o), (new_b[0], n_)):
                     env[b + ".scheme"] = s
                     env[b + ".hostname"] = h
@@ -968,8 +996,8 @@ def redirects(ck):
                 n_eval += g3 is not None
                 got = g3 is not False
                 if o != n_ and not got:
-                    missed.append("%s://%s -> %s://%s" % (o[0], env[old_b[0] + ".netloc"], n_[0], env[new_b[0] + ".netloc"]))
-        ck.ob("C09.cross-origin-test", fin, strip_if.test, not missed, "the test is true whenever scheme, host or port differ (64 URL pairs folded)%s" % ((" - not for " + "; ".join(missed[:3])) if missed else ""))
+                    missed.append("%s://%s -> %s://%s%s" % (o[0], env[old_b[0] + ".netloc"], n_[0], env[new_b[0] + ".netloc"], (" (Location written %s)" % form) if uses_location else ""))
+        ck.ob("C09.cross-origin-test", fin, strip_if.test, not missed, "the test is true whenever scheme, host or port of the joined redirect target differ from the request's, however the Location header was written (URL pairs folded)%s" % ((" - not for " + "; ".join(missed[:3])) if missed else ""))
         orig_src = role[old_b[0]].rsplit(".", 1)[0]
         ok_orig = False
         for st in q.stores_to(fn, orig_src):
@@ -1341,7 +1369,17 @@ def _undo_r3a_repair(root):
     return False
 
 
+def _only_absolute_locations(root):
+    # seeded C09-adv6: the cross-origin decision is skipped unless the raw Location carries a scheme
+    for n in ast.walk(root):
+        if isinstance(n, ast.If) and isinstance(n.test, ast.BoolOp) and "netloc" in _src(n.test) and "scheme" in _src(n.test):
+            n.test = ast.BoolOp(op=ast.And(), values=[parse_expr("urllib.parse.urlsplit(self.headers['Location']).scheme"), n.test])
+            return True
+    return False
+
+
 MUTANTS = [
+    ("seeded C09-adv6: cross-origin test only for Locations that carry a scheme (//host/.. treated as same origin)", _in(SH, CONN + ".finish", _only_absolute_locations), "C09.cross-origin-test"),
     ("undo the R3-a repair: redirected outcome read with an unprotected f.result()", _in(SH, CONN + ".finish", _undo_r3a_repair), "C09.redirect-completes"),
     ("seeded C09-adv1: cross-origin decision via _origin() helper without the scheme", _in(SH, CONN, _origin_helper_without_scheme), "C09.cross-origin-test"),
     ("method rewrite via helper that forgets the HEAD exemption", _in(SH, CONN, _rewrite_through_helper_dropping_head), "C09.redirect-method-rewrite"),
